@@ -505,6 +505,11 @@ func c12RunWait(scen string, prefix []int) (res *engine.EnvRun) {
 		nsock = 2
 	case "gw":
 		x.dst, x.nextHop = ipFar, ipGW
+	case "udp255":
+		// an ordinary neighbour whose address ends in .255 (10.0.1.255 inside 10.0.0.0/8): not a
+		// broadcast address, it is resolved like any other
+		x.dst, x.nextHop = "\x0a\x00\x01\xff", "\x0a\x00\x01\xff"
+		x.c.n.S.SetRouteTable([]tcpip.Route{{Destination: "\x0a\x00\x00\x00", Mask: "\xff\x00\x00\x00", NIC: 1}})
 	case "udp6", "udp6ll":
 		x.advFromLL = scen == "udp6ll"
 		x.v6 = true
@@ -883,7 +888,7 @@ func c12Wrap() []c12Fail {
 
 func c12Jobs(tier string) []string {
 	jobs := []string{"resp:arp", "resp:ndp", "overflow", "wrap"}
-	for _, s := range []string{"udp", "udp2", "gw", "tcp", "udp6", "udp6ll"} {
+	for _, s := range []string{"udp", "udp2", "gw", "tcp", "udp6", "udp6ll", "udp255"} {
 		b := 2
 		if tier == "thorough" {
 			b = 3
